@@ -1,4 +1,4 @@
-import LeptosModel.Proofs.OwnerEff
+import LeptosModel.Proofs.OwnerRerun
 /-!
 # C08 — owner disposal releases exactly what the scope created, exactly once
 
@@ -173,16 +173,122 @@ history logs a run of `e` (`rCount e` counts the `R e` events; the task only run
 has seen the entry — which owns the channel's sender — alive) -/
 theorem C08_disposed_effect_never_runs (st : St) (e : Nat) (hd : EffDead st e) (ops : List Op) :
     rCount e (runOps st ops).log = rCount e st.log :=
-  (k_runOps (K.refl e st) (SR.refl st) hd ops).rc
+  (k_runOps (K.refl e st hd.lt) (SR.refl st) hd ops).rc
 
-/-- in particular: an effect created under an owner (its entry is one of the scope's nodes) never
-runs again after that owner has been cleaned up -/
+/-- in particular: an effect (of any arena-stored kind: `Effect::new` / `new_sync` / `new_isomorphic` /
+`watch`, `AsyncDerived`) created under an owner — its entry is one of the scope's nodes — never runs
+again after that owner has been cleaned up -/
 theorem C08_effects_in_scope_never_run (st : St) (hr : Reachable st.toCore) {o d e : Nat} {er : EffRec}
-    (ha : st.aliveB o = true) (hd : Below st.toCore o d) (he : st.effs[e]? = some er)
-    (hk : er.key ∈ nodesOf st.toCore d) (ops : List Op) :
+    {k : Key} (ha : st.aliveB o = true) (hd : Below st.toCore o d) (he : st.effs[e]? = some er)
+    (hheld : er.held = false) (hkey : er.key = some k) (hk : k ∈ nodesOf st.toCore d) (ops : List Op) :
     rCount e (runOps (st.lift (cleanupOwner · o)) ops).log = rCount e (cleanupOwner st.toCore o).log :=
   C08_disposed_effect_never_runs (st.lift (cleanupOwner · o)) e
-    ⟨er, he, C08_handles_invalidated hr ha hd hk⟩ ops
+    ⟨er, he, hheld, fun k' hk' => by
+      rw [hkey] at hk'; cases hk'
+      exact C08_handles_invalidated hr ha hd hk⟩ ops
+
+/-- a `RenderEffect` (not stored in the arena) never runs again once its handle has been dropped -/
+theorem C08_dropped_render_effect_never_runs (st : St) (e : Nat) (er : EffRec) (he : st.effs[e]? = some er)
+    (hheld : er.held = false) (hkey : er.key = none) (ops : List Op) :
+    rCount e (runOps st ops).log = rCount e st.log :=
+  C08_disposed_effect_never_runs st e ⟨er, he, hheld, fun k hk => by rw [hkey] at hk; cases hk⟩ ops
+
+/-! ## every kind of owner-scoped re-run
+
+The next run of a memo, of an effect of any kind, or of a direct `with_cleanup` starts with the same
+complete pass over the scope's owner — whatever the previous run allocated (only plain arena values,
+only cleanups, only child owners, a mixture, nothing).  Hence after the re-run every node of the
+previous generation is dead and every cleanup of the previous generation has run. -/
+
+/-- memo recomputation (`MemoInner::update_if_necessary`, `Dirty`) -/
+theorem C08_memo_rerun_releases {ex : St → BOp → St} (hex : SRex ex) (st : St) (hr : Reachable st.toCore)
+    {m : Nat} {mr : MemoRec} (hm : st.memos[m]? = some mr) (ha : st.aliveB mr.owner = true) {d : Nat}
+    (hd : Below st.toCore mr.owner d) :
+    (∀ k, k ∈ nodesOf st.toCore d → KeyDead (runMemo ex st m).arena k) ∧
+    (∀ c, c ∈ cleanupsOf st.toCore d → logHas c.cid (runMemo ex st m).log) :=
+  ⟨fun k hk => (ArenaLe.reach (runMemo_after hex st m mr hm)).dead k (C08_handles_invalidated hr ha hd hk),
+   fun c hc => logHas_mono (runMemo_after hex st m mr hm) (cleanupOwner_runs hr.treeWF ha hd hc)⟩
+
+/-- one iteration of the loop of `Effect::new` / `new_sync` / `new_isomorphic` / `watch`,
+`RenderEffect`, `AsyncDerived` (`er.kind` is arbitrary) -/
+theorem C08_effect_rerun_releases (st : St) (hr : Reachable st.toCore) (e : Nat) (er : EffRec)
+    (ha : st.aliveB er.owner = true) {d : Nat} (hd : Below st.toCore er.owner d) :
+    (∀ k, k ∈ nodesOf st.toCore d → KeyDead (runEffect st e er).arena k) ∧
+    (∀ c, c ∈ cleanupsOf st.toCore d → logHas c.cid (runEffect st e er).log) :=
+  ⟨fun k hk => (ArenaLe.reach (runEffect_after st e er)).dead k (C08_handles_invalidated hr ha hd hk),
+   fun c hc => logHas_mono (runEffect_after st e er) (cleanupOwner_runs hr.treeWF ha hd hc)⟩
+
+/-- `Owner::with_cleanup` called directly -/
+theorem C08_with_cleanup_releases (st : St) (hr : Reachable st.toCore) (o b : Nat)
+    (ha : st.aliveB o = true) {d : Nat} (hd : Below st.toCore o d) :
+    (∀ k, k ∈ nodesOf st.toCore d → KeyDead (runWc st o b).arena k) ∧
+    (∀ c, c ∈ cleanupsOf st.toCore d → logHas c.cid (runWc st o b).log) :=
+  ⟨fun k hk => (ArenaLe.reach (runWc_after st o b)).dead k (C08_handles_invalidated hr ha hd hk),
+   fun c hc => logHas_mono (runWc_after st o b) (cleanupOwner_runs hr.treeWF ha hd hc)⟩
+
+/-! ### the handler of `Effect::watch` -/
+
+/-- full statement: whatever a `watch` handler creates is created under an owner -/
+def C08_watch_handler_owned_full : Prop := ∀ ops : List Op, (runOps {} ops).watchHit = false
+
+/-- F-C08-2: `Effect::watch` calls the handler outside `owner.with_cleanup(..)`: with
+`body r0; body i3; x o; in 0 x s1; in 0 x W0.1; idle` the stored value the handler creates has no
+owner (`unowned = 1`) and survives the disposal of everything (`end`) -/
+theorem C08_watch_handler_unowned :
+    (runOps {} [.body [.read 0], .body [.item 3], .act [] (.x .newOwner), .act [0] (.x (.sig 1)),
+      .act [0] (.x (.watch 0 1 true)), .idle]).watchHit = true ∧
+    (runOps {} [.body [.read 0], .body [.item 3], .act [] (.x .newOwner), .act [0] (.x (.sig 1)),
+      .act [0] (.x (.watch 0 1 true)), .idle, .«end»]).arena.len = 1 := by decide
+
+theorem C08_watch_handler_owned_full_false : ¬ C08_watch_handler_owned_full := by
+  intro h
+  have := h [.body [.read 0], .body [.item 3], .act [] (.x .newOwner), .act [0] (.x (.sig 1)),
+      .act [0] (.x (.watch 0 1 true)), .idle]
+  revert this; decide
+
+theorem addSource_watchHit (st : St) (me : Sub) (s : Nat) : (addSource st me s).watchHit = st.watchHit := by
+  unfold addSource
+  split
+  · split <;> rfl
+  · split <;> rfl
+
+theorem readSig_watchHit (st : St) (s : Nat) : (readSig st s).watchHit = st.watchHit := by
+  unfold readSig
+  split
+  · split
+    · simp only
+      split
+      · split
+        · rw [addSource_watchHit]
+        · rfl
+      · rfl
+    · rfl
+  · rfl
+
+/-- partial: a handler token executed while some owner is current (the negation is the decidable
+class `watch-handler-unowned`) does not raise the flag -/
+theorem C08_watch_handler_owned_partial (st : St) (op : BOp) (h : (currentOwner st.toCore).isSome = true) :
+    (execHandlerTok st op).watchHit = st.watchHit := by
+  have hn : (currentOwner st.toCore).isNone = false := by
+    cases hc : currentOwner st.toCore with
+    | none => rw [hc] at h; cases h
+    | some o => rfl
+  cases op with
+  | read s => exact readSig_watchHit st s
+  | cleanup tag => simp [execHandlerTok, hn]
+  | item v => simp [execHandlerTok, hn]
+  | sig v => simp [execHandlerTok, hn]
+  | use ty => simp [execHandlerTok, hn]
+  | get m => rfl
+  | nested tag => rfl
+  | provide ty v => rfl
+  | take ty => rfl
+  | effect b => rfl
+  | memo b => rfl
+  | newOwner => rfl
+  | watch b hb imm => rfl
+  | render b => rfl
+  | async b => rfl
 
 /-! ## frame -/
 
@@ -336,11 +442,34 @@ example : ((runOps {} (exTwo ++ [.«end»])).owners.all fun r => !r.alive) = tru
 /-- an effect created under owner 0 and disposed with it before its first run: its entry is dead … -/
 example : EffDead (runOps {} [.body [.cleanup 4], .act [] (.x .newOwner), .act [0] (.x (.effect 0)),
     .act [] (.cleanup 0)]) 0 :=
-  ⟨{ key := ⟨0, 0⟩, owner := 1, body := 0, dirty := true, firstRun := true, notified := true, woken := true,
-     done := false, sources := [] }, by decide, ⟨⟨0, none⟩, by decide, by decide⟩⟩
+  ⟨{ key := some ⟨0, 0⟩, owner := 1, body := 0, dirty := true, firstRun := true, notified := true, woken := true,
+     done := false, sources := [], kind := EffKind.plain, held := false }, by decide, rfl,
+   fun k hk => by cases hk; exact ⟨⟨0, none⟩, by decide, by decide⟩⟩
 /-- … and polling its task afterwards logs nothing (the pending first notification is lost) -/
 example : (runOps {} [.body [.cleanup 4], .act [] (.x .newOwner), .act [0] (.x (.effect 0)),
     .act [] (.cleanup 0), .idle]).log = [] := by decide
+
+/-- a memo whose body allocates only plain arena values (no cleanup, no child owner): the second
+run disposes the stored value and the signal of the first run; the arena holds the root's signal,
+the memo and one generation -/
+def exMemoPlain : List Op :=
+  [.body [.read 0, .item 7, .sig 3], .act [] (.x .newOwner), .act [0] (.x (.sig 1)), .act [0] (.x (.memo 0)),
+   .act [] (.x (.get 0)), .set 0 2, .act [] (.x (.get 0))]
+example : ((runOps {} exMemoPlain).items.map (runOps {} exMemoPlain).arena.get) = [none, some (Val.num 7)] ∧
+    (runOps {} exMemoPlain).arena.len = 4 := by decide
+/-- the same body re-run by an `Effect::watch`, a `RenderEffect`, an `AsyncDerived` and a direct
+`with_cleanup`: one live generation each -/
+example : (runOps {} [.body [.read 0, .item 7], .body [], .act [] (.x .newOwner), .act [0] (.x (.sig 1)),
+    .act [0] (.x (.watch 0 1 false)), .idle, .set 0 2, .idle]).arena.len = 3 := by decide
+example : (runOps {} [.body [.read 0, .item 7], .act [] (.x .newOwner), .act [0] (.x (.sig 1)),
+    .act [0] (.x (.render 0)), .set 0 2, .idle, .set 0 3, .idle]).arena.len = 2 := by decide
+example : (runOps {} [.body [.read 0, .item 7], .act [] (.x .newOwner), .act [0] (.x (.sig 1)),
+    .act [0] (.x (.async 0)), .set 0 2, .idle, .set 0 3, .idle]).arena.len = 3 := by decide
+example : (runOps {} [.body [.item 7, .newOwner], .act [] (.x .newOwner), .child 0,
+    .act [] (.wc 1 0), .act [] (.wc 1 0), .act [] (.wc 1 0)]).arena.len = 1 := by decide
+/-- a handler token under a current owner: the hypothesis of `C08_watch_handler_owned_partial` -/
+example : (currentOwner (runOps {} [.act [] (.x .newOwner)]).toCore).isSome = false ∧
+    (currentOwner (pushCur (runOps {} [.act [] (.x .newOwner)]).toCore 0)).isSome = true := by decide
 
 /-- a retained child owner is detached by its parent's `cleanup`: what is created under it later is
 released when the child itself is cleaned or dropped, not by the parent's next `cleanup` -/
